@@ -103,6 +103,8 @@ def model_value(m, z):
         return False
     if z3.is_fp(v):
         return fp_to_float(v)
+    if z3.is_bv_value(v):
+        return v.as_long()
     return str(v)
 
 
